@@ -48,7 +48,15 @@ def make_spacetime(desc, seed):
 
 def grid_param(desc, N):
     kind = desc[0]
-    if kind in ('lattice', 'mink', 'scaled'):
+    if kind == 'mink':
+        # anisotropic spacing (dx : dy : dz = 15 : 12 : 10) on the same
+        # periodic box: a per-axis spacing mix-up is invisible on the
+        # cubic grids of the other families
+        g = fields.grid(N)
+        g['Ny'], g['Nz'] = (5 * N) // 4, (3 * N) // 2
+        g['dy'], g['dz'] = 2 * np.pi / g['Ny'], 2 * np.pi / g['Nz']
+        return g, 'periodic'
+    if kind in ('lattice', 'scaled'):
         return fields.grid(N), 'periodic'
     if kind == 'ds':
         d = 2.0 / N
